@@ -51,12 +51,19 @@ BadEnc(g, c) ==
        <<"infinity-flag-on-point", SetB(good, 1, good[1] + 64)>>,
        <<"wrong-form", SetB(good, 1, IF c THEN good[1] - 128 ELSE good[1] + 128)>>,
        <<"stray-bit", IF n > 48 THEN SetB(good, 49, good[49] + 128) ELSE SetB(good, 1, IF c THEN good[1] ELSE good[1] + 32)>> }
+     \* every flag-bit combination in the first byte over an all-zero body (identity encodings, well-formed and not): how far the
+     \* "rest is zero" scan reads must not depend on the untrusted flags
+     \cup { <<"flagzeros-" \o ToString(fb), [k \in 1..n |-> IF k = 1 THEN fb ELSE 0]>> : fb \in {0, 32, 64, 96, 128, 160, 192, 224} }
+IsFlagZeros(cls) == \E fb \in {0, 32, 64, 96, 128, 160, 192, 224} : cls = "flagzeros-" \o ToString(fb)
 Replace(b, off, e) == [i \in 1..Len(b) |-> IF i > off /\ i <= off + Len(e) THEN e[i - off] ELSE b[i]]
 CorruptOf(kind, o, c, sigs, cnt) ==
   LET valid == Layout(kind, o, c)
       es == ElemsOf(kind, c, sigs, cnt)
   IN UNION { { [op |-> "mar.bytes", kind |-> kind, comp |-> (IF c THEN 1 ELSE 0), checked |-> 1, cls |-> bad[1] \o "@elem" \o ToString(i), bytes |-> Replace(valid, es[i][2], bad[2]), src |-> "gen"]
                : bad \in BadEnc(es[i][1], c) } : i \in 1..Len(es) }
+     \* the same flag patterns through the non-validating path (only memory safety and the slot count are constrained there)
+     \cup UNION { { [op |-> "mar.bytes", kind |-> kind, comp |-> (IF c THEN 1 ELSE 0), checked |-> 0, cls |-> bad[1] \o "@elem" \o ToString(i), bytes |-> Replace(valid, es[i][2], bad[2]), src |-> "gen"]
+               : bad \in { bb \in BadEnc(es[i][1], c) : IsFlagZeros(bb[1]) } } : i \in 1..Len(es) }
      \cup { [op |-> "mar.bytes", kind |-> kind, comp |-> (IF c THEN 1 ELSE 0), checked |-> ck, cls |-> "valid", bytes |-> valid, src |-> "gen"] : ck \in {0, 1} }
 ByteCases ==
   SetToSeq(UNION { CorruptOf("wk.key", Key(2, sg), c, sg = 1, 2) \cup CorruptOf("wk.params", Params(2, sg, PV), c, sg = 1, 2) : sg \in {0, 1}, c \in BOOLEAN })
